@@ -5,7 +5,7 @@
 #     lean/UmModel/BackendConn.lean transliterates must still have the shape that was read
 #     (retry threshold `>=`, timeout passes Some(MAX_BACKEND_RETRY), failed connect answers the
 #     retry tasks with Canceled and the queued tasks with an error reply for one second, the
-#     connection-lifetime retry count of the F08b fix).
+#     connection-lifetime retry count of the F08b fix 0e64416, the empty-queue early return of 24d4705).
 
 
 def gen_backend_consts():
@@ -17,6 +17,11 @@ def gen_backend_consts():
        not re.search(r"if\s+retry_times\s*>=\s*MAX_BACKEND_RETRY", err) or \
        not re.search(r"retry_times:\s*retry_times\s*\+\s*1", err):
         raise ExtractError(f"{p}: handle_conn_err no longer has the expected shape")
+    # commit 24d4705: a failure with no held task yields no retry state (first statement of the body)
+    if not re.match(r"\s*if\s+tasks\.is_empty\(\)\s*\{\s*return\s+None;\s*\}\s*let\s+retry_times\s*=", err):
+        raise ExtractError(f"{p}: handle_conn_err no longer starts with `if tasks.is_empty() {{ return None; }}` "
+                           "(fix 24d4705 missing or reshaped): UmModel/BackendConn.lean `connErr` and "
+                           "C08_idle_failure_keeps_budget depend on it")
     conn = fn_body(t, "handle_conn", p)
     if not re.search(r"handle_conn_err\(Some\(MAX_BACKEND_RETRY\),\s*failed_tasks,\s*&err\)", conn):
         raise ExtractError(f"{p}: handle_conn: the timeout path no longer passes Some(MAX_BACKEND_RETRY)")
